@@ -978,6 +978,15 @@ def check_C16(chk):
     scens = fam_seq(chk.tier, chk.seed, "c16", n, 20, sweep_every=5)
     scens += fam_backing(chk.tier, chk.seed, "c16b", n // 2, 16)
     scens += fam_growth(chk.tier, chk.seed, "c16g", 4 if chk.tier == "quick" else 24)
+    # headers that list more L1 entries than the virtual size needs, and not a whole number of blocks of them
+    for k_, (gname_, extra_) in enumerate((("G1", 69), ("G2", 3), ("G3c", 301), ("G2k", 77))):
+        geo_ = dict(S.geoms("thorough")[gname_])
+        need_ = -(-geo_["vclusters"] // ((1 << geo_["cb"]) // 8))
+        rng_ = random.Random(chk.seed * 17 + k_)
+        im_ = S.image_shaped(rng_, geo_, 1, frac=0.2, kinds=("data", "zero"), l1_entries=need_ + extra_)
+        bpc_ = 1 << (geo_["cb"] - geo_["bsb"])
+        st_ = [{"op": "sweep"}, {"op": "write", "gb": 1, "n": bpc_ + 1}, {"op": "flush"}, {"op": "reopen"}, {"op": "sweep"}]
+        scens.append(S.mk(f"c16l-{gname_}", geo_, [im_], st_))
     scens += fam_wide(chk.tier, chk.seed, "c16w", 4 if chk.tier == "quick" else 24)
     scens += fam_regress()
     res, st = Q.run_batch(scens, chk.wd, known=chk.known_tags(), par=12)
@@ -1742,6 +1751,7 @@ def check_C09(chk):
         if c.get("t") == "format" and c.get("boundary") and (not quick or c["mb"] % 2 == 1):
             geo = dict(cb=c["cb"], ro=c["ro"], bsb=9, vclusters=(c["mb"] << 20) >> c["cb"], params={})
             scens.append(S.mk(f"c09B-cb{c['cb']}-ro{c['ro']}-mb{c['mb']}", geo, [S.image_plain(geo, "format")], [{"op": "info"}], format_only=True))
+    scens += fam_wide(chk.tier, chk.seed, "c09w", 6 if quick else 40)
     res, st = Q.run_batch(scens, chk.wd, known=chk.known_tags(), par=14)
     chk.consume(res, st, props=("C09", "C01", "C02", "C03", "C07", "OPEN", "PANIC"))
     for name in res:
@@ -1766,11 +1776,12 @@ def check_C14(chk):
         pairs = [c for c in cases if len(c["m"]) == 2][:2500]
         cases = singles + pairs
     G = S.geoms(chk.tier)
-    geos = ["G1", "G2k", "G3a"] if quick else ["G1", "G2", "G2k", "G3a", "G3b", "G3c", "G6", "G4"]
+    geos = ["G1", "G2k", "G3a", "G5"] if quick else ["G1", "G2", "G2k", "G3a", "G3b", "G3c", "G6", "G4", "G5"]
     scens = []
     for gi, gname in enumerate(geos):
         geo = dict(G[gname])
-        geo["vclusters"] = min(geo["vclusters"], 40)
+        # (G1: two L1 entries, so that a header can list one too few)
+        geo["vclusters"] = 70 if gname == "G1" else min(geo["vclusters"], 40)
         bpc = 1 << (geo["cb"] - geo["bsb"])
         for ci, c in enumerate(cases):
             if not quick and len(c["m"]) == 2 and (ci + gi) % len(geos):
@@ -1779,6 +1790,7 @@ def check_C14(chk):
             v = geo["vclusters"] * bpc
             steps = [{"op": "info"}, {"op": "mapall"}, {"op": "check"}, {"op": "sweep"},
                      {"op": "write", "gb": rng.randrange(v), "n": 1}, {"op": "write", "gb": 0, "n": min(v, 2 * bpc + 1)},
+                     {"op": "write", "gb": v - 1, "n": 1},
                      {"op": "discard", "gb": 0, "n": v}, {"op": "write", "gb": rng.randrange(v), "n": 1},
                      {"op": "flush"}, {"op": "check"}, {"op": "sweep"}, {"op": "reopen"}, {"op": "sweep"}]
             nm = "+".join(f"{m[0]}.{m[1]}" for m in c["m"])
